@@ -1,5 +1,6 @@
 import IncanModel.Driver.C04
 import IncanModel.Driver.C05
+import IncanModel.Driver.C06
 import IncanModel.Driver.C07
 import IncanModel.Driver.C08
 import IncanModel.Driver.C09
@@ -18,6 +19,7 @@ def dispatch (line : String) : String :=
   match line.trimAscii.toString.splitOn " " with
   | "c04" :: rest => handleC04 rest
   | "c05" :: rest => handleC05 rest
+  | "c06" :: rest => handleC06 rest
   | "c07" :: rest => handleC07 rest
   | "c08" :: rest => handleC08 rest
   | "c09" :: rest => handleC09 rest
